@@ -131,6 +131,8 @@ pub struct Spec {
     /// sh_addr := sh_offset for sections whose addr is 0, p_vaddr/p_paddr := p_offset for segments
     /// whose vaddr is 0 (an identity "memory image", which keeps third-party readers quiet)
     pub identity_addrs: bool,
+    /// do not emit the leading null section header: `secs[0]` becomes section index 0
+    pub no_null_section: bool,
 }
 
 impl Spec {
@@ -150,6 +152,7 @@ impl Spec {
             no_shdrs: false,
             body_order: Vec::new(),
             identity_addrs: true,
+            no_null_section: false,
         }
     }
 }
@@ -215,7 +218,9 @@ pub fn build(spec: &Spec) -> Built {
     // final section list
     let mut secs: Vec<Sec> = Vec::new();
     if !spec.no_shdrs {
-        secs.push(Sec::new(b"", SHT_NULL, Vec::new()).addralign(0));
+        if !spec.no_null_section {
+            secs.push(Sec::new(b"", SHT_NULL, Vec::new()).addralign(0));
+        }
         secs.extend(spec.secs.iter().cloned());
         if spec.auto_shstrtab {
             secs.push(Sec::new(b".shstrtab", SHT_STRTAB, Vec::new()));
@@ -257,8 +262,9 @@ pub fn build(spec: &Spec) -> Built {
     // place Auto bodies
     let mut ranges: Vec<(u64, u64)> = vec![(0, 0); nsec];
     let mut placed: Vec<(usize, usize)> = Vec::new(); // (sec, file offset) for body writes
-    let mut order: Vec<usize> = spec.body_order.iter().copied().filter(|i| *i >= 1 && *i < nsec).collect();
-    for i in 1..nsec {
+    let first_real = if spec.no_null_section { 0 } else { 1 };
+    let mut order: Vec<usize> = spec.body_order.iter().copied().filter(|i| *i >= first_real && *i < nsec).collect();
+    for i in first_real..nsec {
         if !order.contains(&i) {
             order.push(i);
         }
@@ -360,7 +366,7 @@ pub fn build(spec: &Spec) -> Built {
     // shdrs
     let mut shdrs: Vec<Vec<u64>> = Vec::new();
     for (i, s) in secs.iter().enumerate() {
-        let addr = if spec.identity_addrs && s.addr == 0 && i != 0 && s.sh_type != SHT_NOBITS { ranges[i].0 } else { s.addr };
+        let addr = if spec.identity_addrs && s.addr == 0 && (i != 0 || spec.no_null_section) && s.sh_type != SHT_NOBITS { ranges[i].0 } else { s.addr };
         let mut v = shdr_values(
             name_offs[i],
             s.sh_type as u64,
@@ -373,7 +379,7 @@ pub fn build(spec: &Spec) -> Built {
             s.addralign,
             s.entsize,
         );
-        if i == 0 {
+        if i == 0 && !spec.no_null_section {
             if nsec as u64 >= SHN_LORESERVE {
                 v[5] = nsec as u64;
             }
